@@ -63,7 +63,9 @@ AK = ['file', 'dir', 'nonexistent', 'dot', 'non-utf8', 'untrashable', 'duplicate
       'unwritable-info-dir', 'crowded-name', 'needs-one-retry', 'path-through-a-file', 'name-too-long']
 NAK = len(AK)
 MODES = [([], []), (['-f'], []), (['-i'], ['y', 'n', 'y', 'n']), (['-v'], []), (['-i'], ['n', 'n', 'n', 'n']), (['-f', '-v'], []),
-         (['--trash-dir', '/v/td'], [])]  # one volume-independent trash dir for arguments that live on three volumes
+         (['--trash-dir', '/v/td'], []),  # one volume-independent trash dir for arguments that live on three volumes
+         ([], []), (['-v'], [])]          # (modes 7, 8: $HOME holds an unbalanced regular-expression character, see MODE_HOME)
+MODE_HOME = {7: '/h(1', 8: '/h[x'}
 NMODE = len(MODES)
 BADNAME = 'bad\udcff'
 RAND = (12345, 23456, 34567, 45678)  # what the random suffix generator answers (names beyond the 100th collision)
@@ -117,7 +119,7 @@ def arg_for(kind, pos):
 
 
 def build(kinds, mode):
-    nodes = [W.d('/h'), W.f('/v/keep', 'KEEP', 0o644, 800), W.f('/w/.Trash', 'x', 0o644, 801), W.f('/w/.Trash-1000', 'x', 0o644, 802)]
+    nodes = [W.d(MODE_HOME.get(mode, '/h')), W.f('/v/keep', 'KEEP', 0o644, 800), W.f('/w/.Trash', 'x', 0o644, 801), W.f('/w/.Trash-1000', 'x', 0o644, 802)]
     nodes += K.sentinels('/v/out')
     args, paths = [], []
     for pos, kind in enumerate(kinds):
@@ -153,7 +155,7 @@ def _case(n, k0, k1, k2, k3, mode):
         rt.begin(([AK[k] for k in kinds], MODES[mode][0]))
         world, args, paths = build(kinds, mode)
         opts, stdin = MODES[mode]
-        e = scen.env()
+        e = scen.env(home=MODE_HOME.get(mode, scen.HOME))
         label = '+'.join(AK[k] for k in kinds)
         m, res = scen.run_model(world, [{'snap': '/'}, C('put', opts + ['--'] + args, e, stdin=list(stdin), cwd='/v', rand=RAND), {'snap': '/'}], hook=_hook(), max_ops=60000)
         before, r, after = res
@@ -258,9 +260,9 @@ def obligations(tier):
            encodes=['Context.trash_each', 'TrashPutReporter.exit_code', 'TrashAllResult.any_failure'],
            stubs=['SingleTrasher -> symbolic results'], bounds='0..4 arguments, every failure pattern'),
         CH('W_argument_lists_up_to_3', MOD, 'w_lists', timeout=2400, partitions=[(k, tier == 'thorough') for k in range(NAK)], engine='W', regime='selector',
-           encodes=K.PUT_FUNCS, stubs=K.STUBS, bounds='lists of 1..3 arguments x 15 argument kinds per position (third position: %s) x 7 option sets' % ('15 kinds' if tier == 'thorough' else '6 kinds: 0 2 4 6 10 12')),
+           encodes=K.PUT_FUNCS, stubs=K.STUBS, bounds='lists of 1..3 arguments x 15 argument kinds per position (third position: %s) x 9 option sets (two of them with an unbalanced ( or [ in $HOME)' % ('15 kinds' if tier == 'thorough' else '6 kinds: 0 2 4 6 10 12')),
     ]
     if tier == 'thorough':
         obs.append(CH('W_argument_lists_of_4', MOD, 'w_lists4', timeout=7000, partitions=list(range(NAK)), twin=False, engine='W',
-                      regime='selector', encodes=K.PUT_FUNCS, stubs=K.STUBS, bounds='lists of 4 arguments: 15 kinds for the first three positions, 6 for the fourth, x 7 option sets'))
+                      regime='selector', encodes=K.PUT_FUNCS, stubs=K.STUBS, bounds='lists of 4 arguments: 15 kinds for the first three positions, 6 for the fourth, x 9 option sets (two of them with an unbalanced ( or [ in $HOME)'))
     return obs
